@@ -327,3 +327,22 @@ package fstree
 //@   property C10
 //@   valid !headReadReachedTheEnd(0) && io.EOF != nil && io.ErrUnexpectedEOF != nil
 //@   ensures [end_of_the_decompressed_data_is_not_an_error] headReadReachedTheEnd(0) ==> res2 == nil
+
+// ---- C15 (batch flush of the write-cache): the write-cache drops every object of a batch from
+// the cache when PutBatch answers nil, so nil means every object of the batch was handed to the
+// writer and the writer stored the batch: an iteration that ends (does not fail the call) has
+// put its object on the list, and the call succeeds only if writeBatch did.
+//@ ghost pred batchWritten() bool
+//@ callrule c15_batch_writer_verdict in (*FSTree).PutBatch
+//@   property C15
+//@   callee (fstree.writer).writeBatch
+//@   pureeffect
+//@   defines err == nil ==> batchWritten()
+//@ callrule c15_put_batch_collaborators in (*FSTree).PutBatch
+//@   property C15
+//@   callee (*fstree.FSTree).treePath, util.MkdirAllX, filepath.Dir, fmt.Errorf, (id.Address).*, (*zap.Logger).*, zap.*
+//@   pureeffect
+//@ func (*FSTree).PutBatch
+//@   property C15
+//@   loop 1 iteration [every_object_with_data_joins_the_list_handed_to_the_writer] len(data) != 0 ==> len(writeDataUnits) == old(len(writeDataUnits)) + 1
+//@   ensures [success_only_if_the_writer_stored_the_batch] err == nil ==> batchWritten()
